@@ -30,6 +30,10 @@ THEOREMS = [
     "C18.multidb_own_override",
     "C18.multidb_default",
     "C18.multidb_own_counterexample",
+    "C18.framing_balanced",
+    "C18.begin_commit_count",
+    "C18.commit_count_single",
+    "C18.commit_count_per_migration",
 ]
 PARTIAL = {
     "C18.multidb_own_override": "full statement C18.multidb_own_statement (every configure() call of an env.py run is framed by its own override or its "
@@ -403,6 +407,9 @@ def flush(ctx, pending):
             ctx.fail(inp, "framing: offline script is not correctly framed for a dialect %s transactional DDL (%s)" % (
                 "with" if r["tddl"] else "without", {k: v for k, v in s.items() if k != "holds"}),
                      impl={"toks": r["toks"], "text": r["text"][:4000], "impl_tddl": r["impl_tddl"]})
+        elif s.get("balanced") is False:
+            # Spec.Txn.balancedB (C18.framing_balanced): the begin/commit markers must be whole `begin commit` pairs
+            ctx.fail(inp, "balance: a commit marker without its own begin marker, or nested blocks", impl={"toks": r["toks"], "text": r["text"][:4000]})
         if k < 3:
             ctx.sample({"input": {k2: inp[k2] for k2 in ("dialect", "override", "perMig", "cmd", "target", "rows")},
                         "history": inp["hist"], "tokens": r["toks"]})
